@@ -126,9 +126,9 @@ H("C02", "c02_store_remove", "store", STF, SB + "; entries without TTL", cover_t
 H("C02", "c02_store_lookup", "store", STF, SB + "; entries without TTL; get, get_mut and an in-place write", cover_tags=["lookup"], cover_optional=["lookup of an expired entry"])
 P("C04", [LOCKS, CLOCK])
 TTLB = "; resident and new entries with or without TTL (creation instants within 4 s before an arbitrary now, TTLs <= 4 s + arbitrary nanoseconds)"
-H("C04", "c04_em_store_insert", "store", STF, SB + TTLB, timeout=3600, cover_tags=["insert"], tier="thorough", mem_gb=28)
-H("C04", "c04_em_store_update", "store", STF, SB + TTLB, timeout=3600, cover_tags=["update"], cover_optional=["update vetoed"], tier="thorough", mem_gb=28)
-H("C04", "c04_em_store_remove", "store", STF, SB + TTLB, timeout=3600, cover_tags=["remove"], tier="thorough", mem_gb=28)
+H("C04", "c04_em_store_insert", "store", STF, SB + TTLB, timeout=1800, cover_tags=["insert"], mem_gb=28)
+H("C04", "c04_em_store_update", "store", STF, SB + TTLB, timeout=1800, cover_tags=["update"], cover_optional=["update vetoed"], mem_gb=28)
+H("C04", "c04_em_store_remove", "store", STF, SB + TTLB, timeout=1800, cover_tags=["remove"], mem_gb=28)
 H("C04", "c04_store_update_ttl", "store", STF, SB + TTLB + "; addressed entry may be expired but not yet swept; expiry index not built", timeout=1200, cover_tags=["update"], cover_optional=["update vetoed"])
 H("C04", "c04_store_insert_ttl", "store", STF, SB + TTLB + "; addressed entry may be expired but not yet swept; expiry index not built", timeout=1200, cover_tags=["insert"])
 for op in ["insert", "update", "remove"]:
@@ -137,8 +137,8 @@ H("C03", "c03_store_lookup_ttl", "store", STF, SB + TTLB + "; lookup at now", ti
 P("C09", [LOCKS, CLOCK])
 H("C09", "c09_store_veto_update", "store", STF, SB + TTLB + "; validator vetoes; expiry index not built", timeout=1200, cover_tags=["update"], cover_optional=["update applied"])
 H("C09", "c09_store_veto_insert", "store", STF, SB + TTLB + "; validator vetoes; expiry index not built", timeout=1200, cover_tags=["insert"], cover_optional=["insert replaces a resident"])
-H("C09", "c09_store_veto_update_em", "store", STF, SB + TTLB + "; validator vetoes; expiry index asserted unchanged", timeout=3600, cover_tags=["update"], cover_optional=["update applied"], tier="thorough", mem_gb=28)
-H("C09", "c09_store_veto_insert_em", "store", STF, SB + TTLB + "; validator vetoes; expiry index asserted unchanged", timeout=3600, cover_tags=["insert"], cover_optional=["insert replaces a resident"], tier="thorough", mem_gb=28)
+H("C09", "c09_store_veto_update_em", "store", STF, SB + TTLB + "; validator vetoes; expiry index asserted unchanged", timeout=1800, cover_tags=["update"], cover_optional=["update applied"], mem_gb=28)
+H("C09", "c09_store_veto_insert_em", "store", STF, SB + TTLB + "; validator vetoes; expiry index asserted unchanged", timeout=1800, cover_tags=["insert"], cover_optional=["insert replaces a resident"], mem_gb=28)
 
 # ------------------------------------------------------------------ cache-level (parked cache)
 CHAN = "crossbeam-channel operations are replaced by a bounded-FIFO contract (Sender::try_send/send, Receiver::try_recv; select!{send,default} only in its 'not ready' outcome): Kani cannot compile crossbeam (TLS destructors)"
